@@ -34,7 +34,8 @@ RELS = ['=', '!=', '<', '<=', '>', '>=']
 CONN = ['and', 'or', 'implies', 'iff']
 BOOL_ATOMS = [P, Q, binop('>', X, L(0)), TRUE, FALSE, AB]
 AYS = ('field', ('var', 'A'), 'ys')
-DOMAINS = [XS, ('set', (L(1), L(2))), ('range', L(0), L(1), False, False), AYS, ('set', (AY, L(1)))]
+DOMAINS = [XS, ('set', (L(1), L(2))), ('range', L(0), L(1), False, False), AYS, ('set', (AY, L(1))),
+           ('range', L(0), L(1), True, True), ('range', X, L(1), False, True)]  # the last two can be empty by exclusivity only
 
 
 def num_terms(depth):
